@@ -498,7 +498,7 @@ HashInputs == { Ramp(n) : n \in Lens } \cup { Rep(0, 1000) }
 
 ModexpLens == {0, 1, 2, 32, 33}
 More(S) == IF RichVals THEN S ELSE {}
-BVals(n) == IF n = 0 THEN {0} ELSE IF n = 1 THEN {3, 255} \cup More({0}) ELSE {3, 1000} \cup More({0})
+BVals(n) == IF n = 0 THEN {0} ELSE IF n = 1 THEN {3} \cup More({0, 255}) ELSE {1000} \cup More({0, 3})
 EVals(n) == IF n = 0 THEN {0} ELSE IF n = 1 THEN {0, 1, 5} \cup More({255}) ELSE IF n = 2 THEN {1, 1000}
             ELSE IF n = 32 THEN {0, 2, 1000} \cup More({1}) ELSE {1, 5, 1000}     \* 33 bytes: leading 32 bytes 0, 0, 3
 MVals(n) == IF n = 0 THEN {0} ELSE IF n = 1 THEN {0, 1, 7} \cup More({255}) ELSE {0, 7, 1000}
